@@ -43,6 +43,7 @@ import (
 //   - every service type must be unique
 func NetworkDocumentValidator() did.Validator {
 	return &did.MultiValidator{Validators: []did.Validator{
+		nilEntryValidator{},
 		did.W3CSpecValidator{},
 		verificationMethodValidator{},
 		basicServiceValidator{},
@@ -55,6 +56,27 @@ func ManagedDocumentValidator(serviceResolver resolver.ServiceResolver) did.Vali
 		NetworkDocumentValidator(),
 		managedServiceValidator{serviceResolver},
 	}}
+}
+
+// nilEntryValidator rejects documents with empty (null) verification methods or relationships,
+// which the other validators (and users of the document) can't handle.
+type nilEntryValidator struct{}
+
+func (n nilEntryValidator) Validate(document did.Document) error {
+	for _, method := range document.VerificationMethod {
+		if method == nil {
+			return errors.New("invalid verificationMethod: empty entry")
+		}
+	}
+	for _, relationships := range []did.VerificationRelationships{document.Authentication, document.AssertionMethod,
+		document.KeyAgreement, document.CapabilityInvocation, document.CapabilityDelegation} {
+		for _, relationship := range relationships {
+			if relationship.VerificationMethod == nil {
+				return errors.New("invalid verificationMethod relationship: empty entry")
+			}
+		}
+	}
+	return nil
 }
 
 // verificationMethodValidator validates the Verification Methods of a Nuts DID Document.
@@ -77,6 +99,9 @@ func (v verificationMethodValidator) verifyThumbprint(method *did.VerificationMe
 	keyAsJWK, err := method.JWK()
 	if err != nil {
 		return fmt.Errorf("unable to get JWK: %w", err)
+	}
+	if keyAsJWK == nil {
+		return errors.New("unable to get JWK: verificationMethod has no key")
 	}
 	_ = jwk.AssignKeyID(keyAsJWK)
 	if keyAsJWK.KeyID() != method.ID.Fragment {
